@@ -124,6 +124,12 @@ class Compiler:
                                         # skip between s and e). A target relative to
                                         # '.' still has a definite distance.
                                         length = wait_for(insn.value, insn.value.resolve(state) - old_addr)
+                                        if length >= 2 ** 16:
+                                            reports.error(
+                                                "value-out-of-bounds",
+                                                (insn.ctx_start, insn.ctx_end, f"The new link address is too far away: a skip of {describe_int(length)} bytes does not fit in the 16-bit address space")
+                                            )
+                                            raise reports.RecoverableError("Skip too long") from None
                                         if length < 0:
                                             reports.error(
                                                 "value-out-of-bounds",
